@@ -217,6 +217,12 @@ unary_sync!(b_descrambler, "Descrambler", u8, u8, |s: &mut Src, n| gen_bits(s, n
     },
     (), ());
 
+/// Symbols for the correlators: bits as a rule, now and then four-level
+/// symbols (they count differing positions, whatever the symbol values).
+fn gen_symbols(src: &mut Src, n: usize, wide: bool) -> Vec<u8> {
+    if wide { (0..n).map(|_| src.below(4) as u8).collect() } else { gen_bits(src, n) }
+}
+
 fn correlate_model(x: &[u8], code: &[u8], allowed: usize) -> Vec<(u8, usize)> {
     let l = code.len();
     let mut out = Vec::with_capacity(x.len());
@@ -235,10 +241,11 @@ fn correlate_model(x: &[u8], code: &[u8], allowed: usize) -> Vec<(u8, usize)> {
     out
 }
 
-unary_sync!(b_correlate, "CorrelateAccessCode", u8, u8, |s: &mut Src, n| gen_bits(s, n),
+unary_sync!(b_correlate, "CorrelateAccessCode", u8, u8, |s: &mut Src, n| { let wide = s.chance(1, 4); gen_symbols(s, n, wide) },
     |s: &mut Src, r| {
         let l = s.range(1, 12);
-        let code = gen_bits(s, l);
+        let wide = s.chance(1, 4);
+        let code = gen_symbols(s, l, wide);
         let allowed = s.below(3);
         let (b, o) = CorrelateAccessCode::new(r, code.clone(), allowed);
         (Box::new(b) as _, o, format!("code {code:?} allowed {allowed}"), Box::new(move |x: &[u8]| correlate_model(x, &code, allowed).into_iter().map(|p| p.0).collect()) as _)
@@ -247,11 +254,12 @@ unary_sync!(b_correlate, "CorrelateAccessCode", u8, u8, |s: &mut Src, n| gen_bit
 
 fn b_correlate_tag(src: &mut Src, env: &Env) -> Case {
     let n = gen_len(src, env.cap::<u8>());
-    let data = gen_bits(src, n);
+    let wide = src.chance(1, 4);
+    let data = gen_symbols(src, n, wide);
     let tags = gen_tags(src, n, env.cap::<u8>());
     let (p, r) = StreamIn::new(data, tags);
     let l = src.range(1, 10);
-    let code = gen_bits(src, l);
+    let code = gen_symbols(src, l, wide);
     let allowed = src.below(3);
     let (b, o) = CorrelateAccessCodeTag::new(r, code.clone(), "sync", allowed);
     let mut c = Case::new("CorrelateAccessCodeTag", format!("len {n} code {code:?} allowed {allowed}"), Box::new(b));
@@ -1201,14 +1209,39 @@ fn b_symbol_sync(src: &mut Src, env: &Env) -> Case {
             }
             next += sps;
         }
-        data.push(level * 0.5);
+        // Magnitude varies along each symbol, so that the output shows which
+        // sample of a symbol was taken.
+        data.push(level * (0.5 + (i % 64) as f32 / 128.0));
     }
+    // One case in twenty-five: signal, then more than 100 000 samples without
+    // a sign change (the block's long-silence fallback), then signal again.
+    if src.chance(1, 25) {
+        let sps_i = 8usize;
+        let square = |n: usize, v: &mut Vec<f32>| {
+            for i in 0..n {
+                let mag = 0.5 + (v.len() % 64) as f32 / 128.0;
+                v.push(if (i / sps_i) % 2 == 0 { mag } else { -mag });
+            }
+        };
+        data.clear();
+        square(1600 - sps_i, &mut data); // ends on a positive symbol
+        let silence = 108_000 + src.below(8);
+        for _ in 0..silence {
+            let mag = 0.5 + (data.len() % 64) as f32 / 128.0;
+            data.push(mag);
+        }
+        square(3200, &mut data);
+    }
+    let long = data.len() > 100_000;
+    let sps = if data.len() > 100_000 { 8.0 } else { sps };
+    let n = data.len();
     let (p, r) = StreamIn::new(data, vec![]);
-    let filt = rustradio::iir_filter::IirFilter::new(&[0.1, 0.9]);
-    let (mut blk, o) = SymbolSync::new(r, sps, 0.1, Box::new(rustradio::symbol_sync::TedZeroCrossing::new()), Box::new(filt));
+    let (taps, dev) = if long || src.coin() { ([0.5f32, 0.5], 0.5) } else { ([0.1, 0.9], 0.1) };
+    let filt = rustradio::iir_filter::IirFilter::new(&taps);
+    let (mut blk, o) = SymbolSync::new(r, sps, dev, Box::new(rustradio::symbol_sync::TedZeroCrossing::new()), Box::new(filt));
     // Half the time with the optional clock output connected: a second output
     // whose reader runs at its own pace.
-    let clock = if src.coin() { blk.out_clock() } else { None };
+    let clock = if long || src.coin() { blk.out_clock() } else { None };
     let mut c = Case::new("SymbolSync", format!("len {n} sps {sps} clock_out {}", clock.is_some()), Box::new(blk));
     c.ins = vec![p];
     c.outs = vec![StreamOut::new(o)];
@@ -1232,7 +1265,9 @@ fn b_zero_crossing(src: &mut Src, env: &Env) -> Case {
             }
             next += sps;
         }
-        data.push(level * 0.5);
+        // Magnitude varies along each symbol, so that the output shows which
+        // sample of a symbol was taken.
+        data.push(level * (0.5 + (i % 64) as f32 / 128.0));
     }
     let (p, r) = StreamIn::new(data, vec![]);
     let (mut blk, o) = ZeroCrossing::new(r, sps, 0.1);
